@@ -357,7 +357,7 @@ pub fn families(subjects: &[Box<dyn Subject>], ctx: &Ctx, depth_triple: usize, d
             continue;
         }
         let n = s.name();
-        if n.ends_with("Enc") || n.ends_with("Dec") {
+        if crate::subjects::base_name(&n).ends_with("Enc") || crate::subjects::base_name(&n).ends_with("Dec") {
             continue;
         }
         if n.starts_with("RC5<") {
@@ -367,8 +367,8 @@ pub fn families(subjects: &[Box<dyn Subject>], ctx: &Ctx, depth_triple: usize, d
                 continue;
             }
         }
-        let enc = format!("{n}Enc");
-        let dec = format!("{n}Dec");
+        let enc = crate::subjects::with_suffix(&n, "Enc");
+        let dec = crate::subjects::with_suffix(&n, "Dec");
         let has = subjects.iter().any(|x| x.name() == enc);
         let f = if has { build_family(subjects, &n, Some(&enc), Some(&dec), depth_triple, calls) } else { build_family(subjects, &n, None, None, depth_plain, calls) };
         if let Some(f) = f {
@@ -383,8 +383,8 @@ pub fn replay(case: &Value) -> Result<(), String> {
     let hist: Vec<u8> = case["history"].as_array().unwrap().iter().map(|x| x.as_u64().unwrap() as u8).collect();
     let calls = case["calls"].as_bool().unwrap_or(false);
     let full = case["family"].as_str().unwrap();
-    let enc = format!("{full}Enc");
-    let dec = format!("{full}Dec");
+    let enc = crate::subjects::with_suffix(full, "Enc");
+    let dec = crate::subjects::with_suffix(full, "Dec");
     let has = subjects.iter().any(|x| x.name() == enc);
     let fam = if has { build_family(&subjects, full, Some(&enc), Some(&dec), 99, calls) } else { build_family(&subjects, full, None, None, 99, calls) }.ok_or("family")?;
     let m = HistModel { fam, subjects, api_calls: AtomicU64::new(0), compared: AtomicU64::new(0) };
